@@ -17,7 +17,12 @@ def build(case):
     if k == "random":
         rng = random.Random(case["seed"])
         pool = GL.QubitPool(rng, bound=case.get("bound", True))
-        return GL.make_gate(rng, case["depth"], pool)
+        g = GL.make_gate(rng, case["depth"], pool)
+        if case.get("reuse"):
+            # the object is used once, then re-parametrised in place, then observed: a gate object must not keep stale state
+            GL.warm_up(g)
+            GL.reparam(g, rng)
+        return g
     if k == "leaf":
         rng = random.Random(case["seed"])
         g = GL.make_leaf(case["cls"], rng, GL.QubitPool(rng, bound=case.get("bound", True)))
@@ -272,7 +277,8 @@ def gen_cases(tier, rng):
     # random nested trees
     n = 3000 if thorough else 400
     for i in range(n):
-        yield {"kind": "random", "seed": rng.randrange(10 ** 12), "depth": rng.choice([1, 2, 2, 3] if not thorough else [1, 2, 3, 4]), "bound": rng.random() < 0.7}
+        yield {"kind": "random", "seed": rng.randrange(10 ** 12), "depth": rng.choice([1, 2, 2, 3] if not thorough else [1, 2, 3, 4]), "bound": rng.random() < 0.7,
+               "reuse": i % 3 == 0}
 
 
 def run_gate_check(rep, drv, tier, rng, oracle, what, opname):
